@@ -30,12 +30,12 @@ def register(reg):
     SLOTS = "heap_unchanged('Config._Config__default_keyfile') and fs_same()"
     C("core:Config._keyfile", params={}, returns="ref:KeyFile", modifies=["Config._Config__default_keyfile@*", "fresh", "ncalls"], noraise=True,
       ensures={
-          "C03.a-key-file-named-here-is-used": "implies(truthy(%s), result is %s)" % (OWN, OWN),
-          "C03.else-a-key-file-named-on-the-parent": "implies(not truthy(%s) and truthy(self._parent) and truthy(old(self._parent._Config__keyfile)), result is old(self._parent._Config__keyfile))" % OWN,
-          "C03.the-default-key-file-only-without-parent-and-name": "implies(not truthy(%s) and not truthy(self._parent), result is self._Config__default_keyfile"
+          "C03+C02+C19.a-key-file-named-here-is-used": "implies(truthy(%s), result is %s)" % (OWN, OWN),
+          "C03+C02+C19.else-a-key-file-named-on-the-parent": "implies(not truthy(%s) and truthy(self._parent) and truthy(old(self._parent._Config__keyfile)), result is old(self._parent._Config__keyfile))" % OWN,
+          "C03+C02+C19.the-default-key-file-only-without-parent-and-name": "implies(not truthy(%s) and not truthy(self._parent), result is self._Config__default_keyfile"
                                                                    " and ((truthy(old(self._Config__default_keyfile)) and result is old(self._Config__default_keyfile))"
                                                                    " or (not truthy(old(self._Config__default_keyfile)) and fresh(result) and result.filename == default_keyfile_path())))" % OWN,
-          "C03.looking-up-never-names-a-key-file": SLOTS,
+          "C03+C02+C19.looking-up-never-names-a-key-file": SLOTS,
       })
     C("core:Config._key_filename", params={}, returns="str", modifies=["fresh", "ncalls"], noraise=True,
       ensures={
